@@ -268,6 +268,12 @@ Proof.
         rewrite !filter_In. cbn [snd]. rewrite !Nat.leb_le. repeat split; auto; lia.
 Qed.
 
+Lemma Inv_fold_add_var xs s : Inv s -> Inv (fold_left add_var xs s).
+Proof. revert s. induction xs as [|x t IH]; intros s HI; simpl; [exact HI|]. apply IH, Inv_add_var, HI. Qed.
+
+Lemma Inv_fold_remove_var xs s : Inv s -> Inv (fold_left remove_var xs s).
+Proof. revert s. induction xs as [|x t IH]; intros s HI; simpl; [exact HI|]. apply IH, Inv_remove_var, HI. Qed.
+
 (* ------------------------------------------------------------------ every operation, every history *)
 Lemma Inv_apply_op s o s' : Inv s -> apply_op s o = Ok s' -> Inv s'.
 Proof.
@@ -287,6 +293,11 @@ Proof.
     destruct (remove_edge s 1 _ _) as [s1|] eqn:E1; [|discriminate].
     eapply Inv_add_edge; [eapply Inv_remove_edge; [exact HI | exact E1] | exact H].
   - destruct (query_has_edge s i u v); inversion H; subst. exact HI.
+  - inversion H; subst. apply Inv_fold_add_var, HI.
+  - inversion H; subst. apply Inv_fold_remove_var, HI.
+  - destruct (valid_node s u); inversion H; subst. apply Inv_add_var, HI.
+  - destruct (forallb (valid_node s) us); inversion H; subst. apply Inv_fold_add_var, HI.
+  - discriminate.
 Qed.
 
 Lemma Inv_step s o : Inv s -> Inv (fst (step s o)).
@@ -385,6 +396,12 @@ Proof.
     destruct (remove_edge s 1 _ _) as [s1|] eqn:E1; [|discriminate].
     rewrite (Hae _ _ _ _ _ E). eapply Hre; eauto.
   - destruct (query_has_edge s i u v); inversion E; reflexivity.
+  - inversion E. clear. revert s. induction xs as [|x t IH]; intros s; simpl; [reflexivity|]. rewrite IH. reflexivity.
+  - inversion E. clear. revert s. induction xs as [|x t IH]; intros s; simpl; [reflexivity|]. rewrite IH. reflexivity.
+  - destruct (valid_node s u); inversion E; reflexivity.
+  - destruct (forallb (valid_node s) us); inversion E. clear. generalize (map fst us). intros xs. revert s.
+    induction xs as [|x t IH]; intros s; simpl; [reflexivity|]. rewrite IH. reflexivity.
+  - discriminate.
 Qed.
 
 Lemma cls_run s ops : cls (run s ops) = cls s.
